@@ -1016,6 +1016,17 @@ PARTS = {
         (G, "gosym_part", dict(name="c05_int_conversion_write", entry="internal/zzverif.C05IntConversion", args_quick=(1,), args_thorough=(1,), key_fn=c05_key,
                                required_sites=("no-silent-wrap", "no-spurious-overflow-error"), assumptions=C05_ASSUME,
                                desc="same for the write direction (writing a value of the current type to a previous version)")),
+        (G, "gosym_part", dict(name="c05_float_to_int_conversion", entry="internal/zzverif.C05FloatToInt", args_quick=(0,), args_thorough=(0,),
+                               required_sites=("guard-is-a-known-form", "assigns-the-rounded-value-cast-to-the-target", "no-silent-out-of-range-conversion", "no-spurious-overflow-error"),
+                               assumptions=["source values: the powers of two +-2^k with a symbolic exponent 0 <= k <= 100 (exactly representable in float and double, equal to their rounding): every "
+                                            "boundary of every integer range lies there; values in between are not explored",
+                                            "C++ meaning of the emitted comparison: the integer limit is converted to the floating-point type of the source (max() = 2^d - 1 becomes 2^d when d exceeds the "
+                                            "mantissa width 24 / 53); converting an out-of-range floating-point value to an integer is undefined behaviour"],
+                               desc="cpp/binary.writeTypeConversion for floating point -> integer (float32 / float64 to the 9 integer primitives): for every power of two of either sign the emitted "
+                                    "code throws iff the value does not fit the target, and otherwise assigns the rounded value cast to the target type")),
+        (G, "gosym_part", dict(name="c05_float_to_int_conversion_write", entry="internal/zzverif.C05FloatToInt", args_quick=(1,), args_thorough=(1,),
+                               required_sites=("no-silent-out-of-range-conversion", "no-spurious-overflow-error"),
+                               assumptions=["as c05_float_to_int_conversion"], desc="same for the write direction (a floating-point value of the current type written to a previous version's integer)")),
         C05_SWITCH_WRITER,
         C05_SWITCH_READER,
         C04_CPP_SCHEMAS_PART,
